@@ -482,6 +482,29 @@ def html_stats(H):
     return T
 
 
+# ---------------------------------------------------------------- coordinates summary
+SUMMARY_KEYS = [(g, c) for g in ("adjusted", "constrained", "fixed") for c in ("xyz", "xy", "z")]
+
+
+def text_summary(text):
+    """{(group, cat): count} + ('total', cat) from the table 'Coordinates xyz xy z' of the English text output"""
+    T = {}
+    for lab, g in (("Adjusted", "adjusted"), ("Constrained  *", "constrained"), ("Fixed", "fixed"), ("Total", "total")):
+        m = re.search(r"^" + re.escape(lab) + r"\s*:\s*(\d+)\s+(\d+)\s+(\d+)\s*$", text, re.M)
+        if m:
+            for c, v in zip(("xyz", "xy", "z"), m.groups()): T[(g, c)] = int(v)
+    return T
+
+
+def html_summary(H):
+    T = {}
+    for (_, c) in H.get("coordinates_summary") or []:
+        g = {"Adjusted": "adjusted", "Constrained  *": "constrained", "Constrained *": "constrained", "Fixed": "fixed", "Total": "total"}.get(c[0] if c else None)
+        if g and len(c) >= 4:
+            for k, v in zip(("xyz", "xy", "z"), c[1:4]): T[(g, k)] = int(v)
+    return T
+
+
 # ---------------------------------------------------------------- tools
 def comparexyz(out):
     """{'points': [(id, dim, x, y, z, dx, dy, dz)], 'max': (DX,DY,DZ), 'verdict': 'Passed'|'Failed', 'absmax', 'tol'}"""
